@@ -347,26 +347,55 @@ def cone_of(root):
     return ops, leaves
 
 
-def build_cone(root):
+def _const_op(v, ty):
+    """arith.constant of refsem value v, or None if it cannot be one (POISON, non-scalar type)."""
+    from xdsl.dialects import arith, builtin as b
+    t = refsem.type_name(ty)
+    if v is refsem.POISON:
+        return None
+    if _is_f(t) and isinstance(v, float):
+        return arith.ConstantOp(b.FloatAttr(v, ty))
+    if (t == "index" or (t[:1] == "i" and t[1:].isdigit())) and isinstance(v, int):
+        return arith.ConstantOp(b.IntegerAttr(refsem.to_signed(v, refsem.int_width(t, 64)), ty))
+    return None
+
+
+def build_cone(root, leaf_values=None):
+    """Function `cone` computing `root` from its backward slice.  The leaves are the function arguments, or --
+    with leaf_values (one refsem value per leaf, e.g. the values observed in the failing run) -- constants: the
+    closed form lets a pass fold the slice the way it did after its own earlier rewrites made the operands
+    constant."""
     from xdsl.dialects import builtin as b, func
     from xdsl.ir import Block, Region
     ops, leaves = cone_of(root)
-    blk = Block(arg_types=[v.type for v in leaves])
     mapper = {}
-    for v, a in zip(leaves, blk.args):
-        mapper[v] = a
+    pre = []
+    if leaf_values is None:
+        blk = Block(arg_types=[v.type for v in leaves])
+        for v, a in zip(leaves, blk.args):
+            mapper[v] = a
+        arg_tys = [v.type for v in leaves]
+    else:
+        blk = Block()
+        for v, x in zip(leaves, leaf_values):
+            c = _const_op(x, v.type)
+            if c is None:
+                return None
+            pre.append(c)
+            mapper[v] = c.results[0]
+        arg_tys = []
     new = []
     for o in ops:
         missing = [v for v in o.operands if v not in mapper]
         if missing:
             return None
         new.append(_clone(o, mapper))
-    blk.add_ops(new)
+    blk.add_ops(pre + new)
     blk.add_op(func.ReturnOp(*new[-1].results))
-    f = func.FuncOp("cone", ([v.type for v in leaves], [r.type for r in root.results]), Region(blk))
+    f = func.FuncOp("cone", (arg_tys, [r.type for r in root.results]), Region(blk))
     m = b.ModuleOp([f])
     m.verify()
-    return m, leaves, new[-1]
+    return m, ([] if leaf_values is not None else leaves), new[-1]
 
 
 def _leaf_inputs(leaves, observed):
@@ -407,42 +436,45 @@ def localise(pass_name, module, fname, vec):
     for op in module.walk():
         if not _pure_simple(op) or op.name == "arith.constant":
             continue
-        built = build_cone(op)
-        if built is None:
-            continue
-        cm, leaves, croot = built
-        obs_lists = [seen_vals.get(id(v), []) for v in leaves]
-        observed = [tuple(t) for t in zip(*obs_lists)] if leaves and all(obs_lists) else []
-        inputs = _leaf_inputs(leaves, observed)
-        if inputs is None:
-            continue
-        after = cm.clone()
-        try:
-            if apply_pass(pass_name, after) is not None:
+        _, leaves0 = cone_of(op)
+        obs_lists = [seen_vals.get(id(v), []) for v in leaves0]
+        observed = [tuple(t) for t in zip(*obs_lists)] if leaves0 and all(obs_lists) else []
+        variants = [None] + [tup for tup in observed[:3]]
+        for leaf_values in variants:
+            built = build_cone(op, leaf_values)
+            if built is None:
                 continue
-            after.verify()
-        except PassTimeout:
-            continue
-        except Exception:
-            continue
-        if canon(cm) == canon(after):
-            continue
-        for tup in inputs:
-            tr: list = []
-            rb = refsem.run_function(cm, "cone", tup, index_bits=64, fuel=2000, trace=tr)
-            ra = refsem.run_function(after, "cone", tup, index_bits=64, fuel=2000)
-            verdict, why = refsem.compare_results(rb, ra)
-            if verdict != "differ":
+            cm, leaves, croot = built
+            inputs = _leaf_inputs(leaves, observed if leaf_values is None else [])
+            if inputs is None:
                 continue
-            rargs = [a for o, a in tr if o is croot]
-            rargs = rargs[0] if rargs else ()
-            in_tys = [refsem.type_name(v.type) for v in op.operands]
-            ty = in_tys[0] if in_tys else refsem.type_name(op.results[0].type)
-            return {"op": op.name, "pred": op_pred(op), "type": width_class(ty),
-                    "value_class": value_class(op.name, in_tys, rargs, rb.values if rb.ok else ()),
-                    "text": f"smallest mis-transformed slice, on inputs {tup!r}: {why}\n-- before:\n"
-                            + progen.render(cm)[:1200] + "\n-- after " + pass_name + ":\n"
-                            + progen.render(after)[:1200]}
+            after = cm.clone()
+            try:
+                if apply_pass(pass_name, after) is not None:
+                    continue
+                after.verify()
+            except PassTimeout:
+                continue
+            except Exception:       # the slice is only a diagnostic aid: a slice the pass rejects is skipped
+                continue
+            if canon(cm) == canon(after):
+                continue
+            for tup in inputs:
+                tr: list = []
+                rb = refsem.run_function(cm, "cone", tup, index_bits=64, fuel=2000, trace=tr)
+                ra = refsem.run_function(after, "cone", tup, index_bits=64, fuel=2000)
+                verdict, why = refsem.compare_results(rb, ra)
+                if verdict != "differ":
+                    continue
+                rargs = [a for o, a in tr if o is croot]
+                rargs = rargs[0] if rargs else ()
+                in_tys = [refsem.type_name(v.type) for v in op.operands]
+                ty = in_tys[0] if in_tys else refsem.type_name(op.results[0].type)
+                return {"op": op.name, "pred": op_pred(op), "type": width_class(ty),
+                        "value_class": value_class(op.name, in_tys, rargs, rb.values if rb.ok else ()),
+                        "text": f"smallest mis-transformed slice, on inputs {tup!r}: {why}\n-- before:\n"
+                                + progen.render(cm)[:1200] + "\n-- after " + pass_name + ":\n"
+                                + progen.render(after)[:1200]}
     return None
 
 
@@ -970,6 +1002,6 @@ def checks(h):
     _init()
     fold_table(h)
     partial_table(h)
-    for salt, (name, q, t) in enumerate([("general", 200, 6000), ("const", 140, 4000), ("flat", 70, 2000),
-                                         ("flags", 40, 1500), ("memory", 50, 1500)]):
+    for salt, (name, q, t) in enumerate([("general", 200, 5000), ("const", 140, 3500), ("flat", 70, 2000),
+                                         ("flags", 40, 1200), ("memory", 50, 1300)]):
         h.hyp(name, campaign(name), lambda r, name=name: run_case(h, r, name), h.scale(q, t), 1 + salt)
